@@ -14,7 +14,7 @@ def restore():
     for d in sorted(glob.glob('/verif/seeded/C*-*')):
         rel = d[len('/verif/'):] + '/meta.json'
         try:
-            old = json.loads(subprocess.check_output(['git', '-C', '/verif', 'show', 'HEAD:' + rel]))
+            old = json.loads(subprocess.check_output(['git', '-C', '/verif', 'show', (sys.argv[2] if len(sys.argv) > 2 else 'HEAD') + ':' + rel]))
         except Exception:
             continue
         m = load(d)
